@@ -208,6 +208,17 @@ class PortsWorld(World):
             how = rng.below(3)
             p2 = dict(p1) if how == 0 else (self._perturb(rng, cls, p1) if how == 1
                                             else self._params(rng, cls))
+            if cls == "wishbone.Signature" and how != 0 and rng.chance(0.3):
+                # two parameters differ in a way that keeps the byte-address span the same
+                # (a coarser granularity with correspondingly more word-address bits)
+                p2 = dict(p1)
+                g1 = p1["g"] if p1["g"] is not None else p1["dw"]
+                others = [x for x in (8, 16, 32, 64) if x <= p1["dw"] and x != g1]
+                if others:
+                    g2 = rng.choice(others)
+                    k = (g2.bit_length() - g1.bit_length())
+                    p2["g"] = g2
+                    p2["aw"] = max(0, p1["aw"] + k)
             if cls == "wishbone.Signature" and how == 0:
                 # the same features, listed in another order and spelled another way
                 p2["feats"] = rng.shuffle(sorted(p1["feats"]))
